@@ -8,6 +8,11 @@ package main
 //        constant vectors (and single slots): the special IFFT is exact on them, so the coefficient
 //        vector is exactly determined: fixedPoint(re) at 0, fixedPoint(im) at N/2, zero elsewhere
 //   ckks enccoef <N> <qs> <P> <scale> <v0;v1;..>              -> centred coefficients (coefficient domain)
+//   ckks encpoly <N> <ci> <qs> <slots> <re ints> <im ints>      -> centred coefficients: the inputs are the slot vector
+//        (obtained with the real Decode) of a plaintext with these integer coefficients, so Encode must return
+//        exactly that plaintext (rounding margin >> FFT error); non-constant vectors, all slot counts, both rings,
+//        float64 and arbitrary-precision encoder (the latter after a low-precision Encode on the same encoder);
+//        conjugate-invariant ring: the inputs additionally carry non-zero imaginary parts, which must be discarded
 //   ckks bitrev <bits> <i>                                    -> utils.BitReverse64
 //   ckks roundprec <num> <den> <logprec>                      -> DecodePublic(one slot) * 2^logprec
 // Probes:
@@ -16,6 +21,9 @@ package main
 //   encode_mul_slotwise      plaintext product decodes to the slot-wise product
 //   slot_root_orbit          Decode(X^k) = (zeta^(5^j k))_j : the index tables realise the 5^j orbit
 //   encode_overwrites        encoding a short vector on a used plaintext leaves no stale coefficients
+//   encoder_precision_history  on an arbitrary-precision encoder: Encode/Decode of []*big.Float of LOWER (24, 53)
+//                            and HIGHER precision than the encoder's, then of full-precision values on the SAME
+//                            encoder: error <= 2^-(min(logScale,prec)-logN-6) + |v| 2^-(prec-logN-10) (no 2^-53 floor)
 //   errors_not_panics
 
 import (
@@ -84,7 +92,7 @@ func (e *c07cEnv) ciTok() string {
 
 // dyadic returns sign * k * 2^exp with k < 2^bits.
 func c07cDyadic(c *Ctx, bits int, exp int) *big.Float {
-	k := int64(c.rng.Intn(1<<bits)) + 1
+	k := int64(c.rng.U64()>>(64-uint(bits))) + 1
 	if c.rng.Intn(2) == 0 {
 		k = -k
 	}
@@ -114,15 +122,20 @@ func (e *c07cEnv) tieSlots(c *Ctx) {
 			logQ := e.params.LogQLvl(level)
 			hi := logQ - logS - 3
 			exp := -logS - 2 + c.rng.Intn(hi+logS+2)
-			re := c07cDyadic(c, 12, exp-11)
-			im := c07cDyadic(c, 12, exp-11)
-			if e.ci || c.rng.Intn(4) == 0 {
-				im = new(big.Float)
-			}
 			kind := c.rng.Intn(4)
 			useBig := c.rng.Intn(2) == 0
-			if im.Sign() != 0 && kind >= 2 {
-				kind -= 2
+			bits := 12
+			if useBig && (kind == 1 || kind == 3) {
+				bits = 60 // more than a float64 mantissa: the encoder must really work at its own precision
+			}
+			re := c07cDyadic(c, bits, exp-bits+1)
+			im := c07cDyadic(c, bits, exp-bits+1)
+			if (!e.ci && c.rng.Intn(4) == 0) || kind >= 2 {
+				im = new(big.Float)
+			}
+			imTok := c06Dy(im)
+			if e.ci {
+				imTok = "0,0" // conjugate-invariant ring: the imaginary part of the input is discarded
 			}
 			var vals interface{}
 			switch kind {
@@ -156,16 +169,226 @@ func (e *c07cEnv) tieSlots(c *Ctx) {
 			pt.LogDimensions.Cols = ls
 			ecd, P, sc := e.ecd64, uint(53), new(big.Float).SetFloat64(scale.Float64())
 			if useBig {
+				// ComplexArbitraryToFixedPointCRT: xFlo has precision max(scale 128, buffer precB)
 				ecd, P, sc = e.ecdBig, e.precB, &scale.Value
+				if P < 128 {
+					P = 128
+				}
 			}
 			out := Try(func() string {
+				if useBig {
+					e.lowPrecCall(c)
+				}
 				if err := ecd.Encode(vals, pt); err != nil {
 					return "err"
 				}
 				return e.coeffs(pt)
 			})
-			c.Emit(fmt.Sprintf("ckks encslot %d %s %s %d %s %d %s %s", e.N, e.ciTok(), Vec(e.params.Q()[:level+1]), P, c06Dy(sc), slots, c06Dy(re), c06Dy(im)), out)
+			c.Emit(fmt.Sprintf("ckks encslot %d %s %s %d %s %d %s %s", e.N, e.ciTok(), Vec(e.params.Q()[:level+1]), P, c06Dy(sc), slots, c06Dy(re), imTok), out)
 			c.Count(fmt.Sprintf("tie:encslot:%s:big=%v:kind=%d", e.tag, useBig, kind))
+		}
+	}
+}
+
+// lowPrecCall encodes ordinary low-precision *big.Float values on the arbitrary-precision encoder: the
+// encoder's scratch buffers must keep their own precision afterwards.
+func (e *c07cEnv) lowPrecCall(c *Ctx) {
+	prec := []uint{53, 24}[c.rng.Intn(2)]
+	n := 1 << e.logMax
+	v := make([]*big.Float, n)
+	for i := range v {
+		v[i] = new(big.Float).SetPrec(prec).SetFloat64(float64(c.rng.Intn(1<<20))/float64(1<<20) - 0.5)
+	}
+	pt := ckks.NewPlaintext(e.params, e.params.MaxLevel())
+	if err := e.ecdBig.Encode(v, pt); err != nil {
+		panic(err)
+	}
+}
+
+// tiePoly: Encode(Decode(plaintext with integer coefficients)) must be that plaintext, exactly.
+func (e *c07cEnv) tiePoly(c *Ctx) {
+	maxLevel := e.params.MaxLevel()
+	for ls := 0; ls <= e.logMax; ls++ {
+		slots := 1 << ls
+		for rep := 0; rep < c.Scale(6, 30); rep++ {
+			level := c.rng.Intn(maxLevel + 1)
+			logQ := e.params.LogQLvl(level)
+			useBig := c.rng.Intn(2) == 0
+			kind := c.rng.Intn(4) // 0 []complex128, 1 []*bignum.Complex, 2 []float64, 3 []*big.Float
+			if !e.ci && kind >= 2 {
+				kind -= 2 // the slot values of a general polynomial are complex
+			}
+			bits := 20
+			if useBig && (kind == 1 || kind == 3) {
+				bits = 70
+			}
+			if bits > logQ-8 {
+				bits = logQ - 8
+			}
+			logS := 20 + c.rng.Intn(26)
+			scale := rlwe.NewScale(math.Exp2(float64(logS)))
+			if c.rng.Intn(3) == 0 {
+				scale = rlwe.NewScale(e.params.Q()[c.rng.Intn(maxLevel+1)])
+			}
+			// integer coefficients
+			rnd := func() *big.Int {
+				k := new(big.Int).SetUint64(c.rng.U64())
+				k.Lsh(k, 64).Add(k, new(big.Int).SetUint64(c.rng.U64()))
+				k.Rsh(k, uint(128-bits))
+				if c.rng.Intn(2) == 0 {
+					k.Neg(k)
+				}
+				return k
+			}
+			re, im := make([]*big.Int, slots), make([]*big.Int, slots)
+			reTok, imTok := make([]string, slots), make([]string, slots)
+			for i := range re {
+				re[i], im[i] = rnd(), rnd()
+				if e.ci {
+					im[i] = new(big.Int)
+				}
+				reTok[i], imTok[i] = re[i].String(), im[i].String()
+			}
+			gap := e.N / (2 * slots)
+			if e.ci {
+				gap = e.N / slots
+			}
+			r := e.params.RingQ().AtLevel(level)
+			pt0 := ckks.NewPlaintext(e.params, level)
+			pt0.Scale = scale
+			pt0.LogDimensions.Cols = ls
+			tmp := new(big.Int)
+			for j, qj := range e.params.Q()[:level+1] {
+				bq := new(big.Int).SetUint64(qj)
+				for i := 0; i < slots; i++ {
+					pt0.Value.Coeffs[j][i*gap] = tmp.Mod(re[i], bq).Uint64()
+					if !e.ci {
+						pt0.Value.Coeffs[j][e.N/2+i*gap] = tmp.Mod(im[i], bq).Uint64()
+					}
+				}
+			}
+			r.NTT(pt0.Value, pt0.Value)
+			ecd := e.ecd64
+			if useBig {
+				ecd = e.ecdBig
+			}
+			junk := func() float64 { return float64(c.rng.Intn(1<<20))/float64(1<<18) - 2 }
+			out := Try(func() string {
+				if useBig {
+					e.lowPrecCall(c)
+				}
+				var vals interface{}
+				if kind == 0 || kind == 2 {
+					v := make([]complex128, slots)
+					if err := ecd.Decode(pt0, v); err != nil {
+						return "err"
+					}
+					if kind == 2 {
+						f := make([]float64, slots)
+						for i := range f {
+							f[i] = real(v[i])
+						}
+						vals = f
+					} else {
+						if e.ci {
+							for i := range v {
+								v[i] = complex(real(v[i]), junk())
+							}
+						}
+						vals = v
+					}
+				} else {
+					v := make([]*bignum.Complex, slots)
+					if err := ecd.Decode(pt0, v); err != nil {
+						return "err"
+					}
+					if kind == 3 {
+						f := make([]*big.Float, slots)
+						for i := range f {
+							f[i] = v[i][0]
+						}
+						vals = f
+					} else {
+						if e.ci {
+							for i := range v {
+								v[i][1] = new(big.Float).SetPrec(v[i][0].Prec()).SetFloat64(junk())
+							}
+						}
+						vals = v
+					}
+				}
+				pt1 := ckks.NewPlaintext(e.params, level)
+				pt1.Scale = scale
+				pt1.LogDimensions.Cols = ls
+				if err := ecd.Encode(vals, pt1); err != nil {
+					return "err"
+				}
+				return e.coeffs(pt1)
+			})
+			c.Emit(fmt.Sprintf("ckks encpoly %d %s %s %d %s %s", e.N, e.ciTok(), Vec(e.params.Q()[:level+1]), slots, strings.Join(reTok, ","), strings.Join(imTok, ",")), out)
+			c.Count(fmt.Sprintf("tie:encpoly:%s:big=%v:kind=%d", e.tag, useBig, kind))
+		}
+	}
+}
+
+// probeHistory: the arbitrary-precision encoder keeps its precision whatever the precision of the inputs.
+func (e *c07cEnv) probeHistory(c *Ctx) {
+	logN := e.params.LogN()
+	level := e.params.MaxLevel()
+	logS := 90
+	if m := e.params.LogQLvl(level) - 30; m < logS {
+		logS = m
+	}
+	prec := int(e.precB)
+	eff := logS
+	if prec < eff {
+		eff = prec
+	}
+	for _, ls := range []int{e.logMax, 1 + c.rng.Intn(e.logMax)} {
+		slots := 1 << ls
+		for _, lowPrec := range []uint{53, 24, 300} {
+			args := fmt.Sprintf("%s slots=%d logScale=%d encoderPrec=%d inputPrec=%d", e.tag, slots, logS, prec, lowPrec)
+			d := Try(func() string {
+				roundTrip := func(name string, v []*big.Float) string {
+					pt := ckks.NewPlaintext(e.params, level)
+					pt.Scale = rlwe.NewScale(math.Exp2(float64(logS)))
+					pt.LogDimensions.Cols = ls
+					if err := e.ecdBig.Encode(v, pt); err != nil {
+						return name + ": encode error"
+					}
+					have := make([]*big.Float, slots)
+					if err := e.ecdBig.Decode(pt, have); err != nil {
+						return name + ": decode error"
+					}
+					tol := math.Exp2(float64(-(eff - logN - 6))) + math.Exp2(float64(-(prec - logN - 10)))
+					for i := range v {
+						diff := new(big.Float).SetPrec(400).Sub(have[i], v[i])
+						f, _ := diff.Float64()
+						if !(math.Abs(f) <= tol) {
+							return fmt.Sprintf("%s: slot=%d log2err=%d log2tol=%d", name, i, int(math.Ceil(math.Log2(math.Abs(f)))), int(math.Ceil(math.Log2(tol))))
+						}
+					}
+					return ""
+				}
+				low := make([]*big.Float, slots)
+				for i := range low {
+					low[i] = new(big.Float).SetPrec(lowPrec).SetFloat64(float64(c.rng.Intn(1<<22))/float64(1<<22) - 0.5)
+					if lowPrec > 53 {
+						low[i].Add(low[i], new(big.Float).SetMantExp(big.NewFloat(1), -200))
+					}
+				}
+				if s := roundTrip("input-precision-call", low); s != "" {
+					return s
+				}
+				hi := make([]*big.Float, slots)
+				for i := range hi {
+					k := new(big.Int).SetUint64(c.rng.U64())
+					k.Lsh(k, 64).Add(k, new(big.Int).SetUint64(c.rng.U64()))
+					hi[i] = new(big.Float).SetPrec(uint(prec)).SetMantExp(new(big.Float).SetInt(k), -129) // in [0, 0.5), full mantissa
+				}
+				return roundTrip("full-precision-call-afterwards", hi)
+			})
+			c.Probe("encoder_precision_history", args, "C07/ckks-encoder-precision-history", d)
 		}
 	}
 }
@@ -308,10 +531,28 @@ func (e *c07cEnv) probeRoundTrip(c *Ctx) {
 				n = 1 + c.rng.Intn(slots)
 			}
 			want := e.randComplex(c, n, logMag)
+			var input interface{} = want
+			cplx := false
+			if e.ci && c.rng.Intn(2) == 0 {
+				// conjugate-invariant ring: complex inputs, the imaginary parts must be discarded
+				cplx = true
+				in := make([]complex128, n)
+				for i := range in {
+					in[i] = complex(real(want[i]), (float64(c.rng.Intn(1<<21))/float64(1<<20)-1)*math.Exp2(float64(logMag)))
+				}
+				input = in
+				if c.rng.Intn(2) == 0 {
+					bc := make([]*bignum.Complex, n)
+					for i := range bc {
+						bc[i] = &bignum.Complex{new(big.Float).SetPrec(100).SetFloat64(real(in[i])), new(big.Float).SetPrec(100).SetFloat64(imag(in[i]))}
+					}
+					input = bc
+				}
+			}
 			pt := ckks.NewPlaintext(e.params, level)
 			pt.Scale = rlwe.NewScale(math.Exp2(float64(logS)))
 			pt.LogDimensions.Cols = ls
-			args := fmt.Sprintf("%s slots=%d n=%d level=%d logScale=%d logMag=%d big=%v", e.tag, slots, n, level, logS, logMag, useBig)
+			args := fmt.Sprintf("%s slots=%d n=%d level=%d logScale=%d logMag=%d big=%v complexInput=%v", e.tag, slots, n, level, logS, logMag, useBig, cplx)
 			key := "C07/ckks-roundtrip"
 			if e.ci && useBig {
 				key = "C07/ckks-ci-bigdecode-stale-imag" // polyToComplex*: values[i][1] not cleared (isreal, []*bignum.Complex)
@@ -320,7 +561,7 @@ func (e *c07cEnv) probeRoundTrip(c *Ctx) {
 				key = "C07/ckks-ci-one-slot"
 			}
 			d := Try(func() string {
-				if err := ecd.Encode(want, pt); err != nil {
+				if err := ecd.Encode(input, pt); err != nil {
 					return "encode error"
 				}
 				have := make([]complex128, slots)
@@ -677,7 +918,9 @@ func genC07CKKS(c *Ctx) {
 	}
 	for _, e := range envs {
 		e.tieSlots(c)
+		e.tiePoly(c)
 		e.tieCoeffs(c)
+		e.probeHistory(c)
 		e.tieRoundPrec(c)
 		e.probeRoundTrip(c)
 		e.probeDecodePublic(c)
